@@ -110,6 +110,12 @@ def run_update_projects(rep, tier, seed, focus, model_ok=True, effort=1, legacy_
                                   input=dict(version_pattern=spec["vp"], current_version=spec["old"], files={f.path: f.patterns for f in spec["files"]},
                                              entries=sorted(set(f.group or f.path for f in spec["files"])), error=str(cerr)[:300]), **{"class": "unexpected-failure"})
                 continue
+            if focus == "outside":
+                # neighbours of the configured files that a careless "write to a temporary name, then rename" would clobber
+                for fs_ in spec["files"][:2]:
+                    for suffix in (".tmp", ".bak", "~", ".new"):
+                        with open(prj.path(fs_.path + suffix), "w") as fh_:
+                            fh_.write("unrelated neighbour of %s\n" % fs_.path)
             before = prj.snapshot()
             nd = rwgen.avoid_week53(spec["vp"], spec["date"] + dt.timedelta(days=r.choice([1, 40, 400])))
             args = ["update", "--no-fetch", "--date", nd.isoformat()] + spec["flags"]
@@ -145,10 +151,10 @@ def run_update_projects(rep, tier, seed, focus, model_ok=True, effort=1, legacy_
                     rep.violation("%s in %s" % (what, path), input=dict(inp, new=new, path=path, got=got.decode("utf-8", "replace") if got else None,
                                                                       want=want.decode("utf-8", "replace")), **{"class": kind + "-" + ("cfg" if path == prj.fmt else "file")})
             if focus == "outside":
-                extra = set(after) - set(exp)
-                for path in extra:
-                    if after[path] != before.get(path):
-                        rep.violation("a file not named in the configuration was written: %s" % path, input=inp, **{"class": "unconfigured-write"})
+                extra = (set(after) | set(before)) - set(exp)
+                for path in sorted(extra):
+                    if after.get(path) != before.get(path):
+                        rep.violation("a file not named in the configuration was %s: %s" % ("removed" if path not in after else "written", path), input=inp, **{"class": "unconfigured-write"})
             if focus == "stale":
                 c2, out2, _, _ = prj.run(impl, ["show", "--no-fetch"])
                 if c2 != 0 or ("Current Version: %s" % new) not in out2:
